@@ -35,8 +35,8 @@ ASSUMPTIONS = [
     "integral = sum over voxels of data * prod(dimensions / shape), per time step and component",
 ]
 FLOORS = {
-    "quick": {"resize_conserves": 500, "resize_object_reused": 150, "resize_options_with_key_prefix": 120, "refine_coarsen_identity": 100, "coarsen_conserves": 100, "axis_reduction": 400, "extrusion": 60, "superpose": 150},
-    "thorough": {"resize_conserves": 6000, "resize_object_reused": 1500, "resize_options_with_key_prefix": 1200, "refine_coarsen_identity": 1200, "coarsen_conserves": 1200, "axis_reduction": 5000, "extrusion": 700, "superpose": 1800},
+    "quick": {"resize_conserves": 500, "resize_object_reused": 150, "resize_options_with_key_prefix": 120, "image_born_as_uint8_then_converted": 150, "refine_coarsen_identity": 100, "coarsen_conserves": 100, "axis_reduction": 400, "extrusion": 60, "superpose": 150},
+    "thorough": {"resize_conserves": 6000, "resize_object_reused": 1500, "resize_options_with_key_prefix": 1200, "image_born_as_uint8_then_converted": 1500, "refine_coarsen_identity": 1200, "coarsen_conserves": 1200, "axis_reduction": 5000, "extrusion": 700, "superpose": 1800},
 }
 
 
@@ -83,6 +83,14 @@ def run_shard(spec, R):
                 kw["time"] = [0.0, 1.0, 2.0, 3.0]
             if origin is not None:
                 kw["origin"] = origin
+            if rng.random() < 0.2:
+                # history of the image: constructed from 8-bit data, converted to the float type, filled with the
+                # (fractional) float data; the dtype it was born with must not matter any more
+                born = darsia.Image(rng.integers(0, 255, size=arr.shape).astype(np.uint8), **kw)
+                conv = born.astype(dtype)
+                conv.img = arr.copy()
+                R.count("image_born_as_uint8_then_converted")
+                return conv, arr.copy(), dims
             return darsia.Image(arr, **kw), arr.copy(), dims
 
         # ================================================================ resize
